@@ -222,6 +222,7 @@ struct State {
   unsigned call_cnt[C_NCALLS][3];
   std::unordered_set<uint64_t> states;
   int nworkers_created = 0;
+  uint64_t emit_credit = 0;          // emit tasks begun (capped)
   uint64_t io_progress = 0;          // read()/write() calls that transferred at least one byte
   uint64_t preempt_steps = 0;
   int64_t preempt_countdown = 0;     // "preempt" variant: instrumented accesses until the next preemption point (<= 0: none pending)
@@ -477,7 +478,11 @@ static void schedule_point(int op, int64_t a) {
   // step budget: the static part comes from the plan (input shape), the dynamic part grows with
   // the I/O calls actually made, so that fragmentation cannot fake a livelock while a spinning
   // scheduler (steps without I/O) still exhausts it
-  uint64_t budget = (s.plan->step_budget ? s.plan->step_budget : 5000000) + 100ull * s.io_progress;
+  static const uint64_t budget_mult = getenv("LBZSIM_BUDGET_MULT") ? strtoull(getenv("LBZSIM_BUDGET_MULT"), 0, 10) : 1;     // diagnosis only: does a STEP_BUDGET run end with more steps?
+  // (emit tasks earn a little budget too, up to a cap: a speculative block that is decoded and thrown away can legitimately expand to
+  // megabytes that never reach write(), which with 69-byte output buffers took 290 000 steps on the unchanged tree - a false STEP_BUDGET
+  // alarm of C10's thorough tier; a real emit/reorder livelock still runs out after the cap)
+  uint64_t budget = ((s.plan->step_budget ? s.plan->step_budget : 5000000) + 100ull * s.io_progress + 4ull * s.emit_credit) * (budget_mult ? budget_mult : 1);
   if (op == OP_PREEMPT) { s.preempt_steps++; R.inregion_points++; }     // preemption points inside unsynchronised code are not scheduler progress
   if (R.steps - s.preempt_steps > budget) end_run(X_BUDGET, 0);
 
@@ -749,6 +754,7 @@ void verif_task(const char *name, int begin) { SHIM;
   if (begin) {
     S->res->reach[std::string("task.") + name]++;
     ev(OP_TASK, (int64_t)hash_bytes(name, strlen(name)), 0);
+    if (S->emit_credit < 2000000 && !strcmp(name, "emit")) S->emit_credit++;
     const Sched &sc = S->plan->sched;
     if (sc.stall_k && !sc.explicit_ && S->cur >= 0 && sc.stall_task == name && S->res->reach[std::string("task.") + name] == sc.stall_k) {
       S->F[S->cur].stalled_until = S->res->steps + sc.stall_len;
